@@ -256,7 +256,7 @@ M = [
  ("c20_subsec_micros", FFI, "nanos: duration.subsec_nanos(),", "nanos: duration.subsec_micros(),", ["C20"]),
  ("c20_blockingbegin_as_timerbegin", FFI, "MaybenotEventType::BlockingBegin => TriggerEvent::BlockingBegin { machine },", "MaybenotEventType::BlockingBegin => TriggerEvent::TimerBegin { machine },", ["C20"]),
  ("c20_leak_the_box", FFI2, "let _this = unsafe { Box::from_raw(this) };", "let _this = std::mem::ManuallyDrop::new(unsafe { Box::from_raw(this) });", ["C20"]),
- ("c20_drop_null_check", FFI2, "if events.is_null() || actions_out.is_null() || num_actions_out.is_null() {", "if actions_out.is_null() || num_actions_out.is_null() {", []),
+ ("c20_drop_null_check", FFI2, "if events.is_null() || actions_out.is_null() || num_actions_out.is_null() {", "if actions_out.is_null() || num_actions_out.is_null() {", ["C20"]),
 ]
 
 
